@@ -110,7 +110,8 @@ def tlc_trace(spec_name, trace_path, tag, timeout=1800, cfg_name=None):
     env = {"TRACE": trace_path,
            "JAVA_TOOL_OPTIONS": "-Xss1g -Xmx6g -Dtlc2.tool.queue.IStateQueue=StateDeque"}
     t0 = time.time()
-    p = sh(_tlc_cmd(spec, cfg, md, 1, [], "6g"), cwd=SPEC, env=env, timeout=timeout, check=False)
+    # StateDeque cannot checkpoint: a validation longer than the checkpoint interval would abort
+    p = sh(_tlc_cmd(spec, cfg, md, 1, ["-checkpoint", "0"], "6g"), cwd=SPEC, env=env, timeout=timeout, check=False)
     out = p.stdout
     shutil.rmtree(md, ignore_errors=True)
     findings = []
